@@ -314,6 +314,14 @@ static void oversize_workload(Harness& H, bool thorough)
    std::uint64_t tag = 1u << 29;
    std::vector<std::size_t> sizes = { 65535, 65536, 65537, 65544, 65545, (1u << 20) - 8, 1u << 20, (1u << 20) + 1, (2u << 20) + 3 };
    if (thorough) { sizes.push_back(8u << 20); sizes.push_back((1u << 20) - 9); sizes.push_back((1u << 20) - 7); sizes.push_back(3u << 20); }
+   // every length around the two thresholds of the allocator (the oversize test at 65536 and the byte capacity of a pool,
+   // 65536 granules of 16 bytes = 2^20, less the 8-byte length field): the windows are shared out among the workers
+   {
+      const std::size_t w = std::size_t(ctx().worker), nw = std::size_t(std::max(1, ctx().workers));
+      for (std::size_t n = 65536 - 24; n <= 65536 + 40; ++n) if (n % nw == w) sizes.push_back(n);
+      for (std::size_t n = (1u << 20) - 40; n <= (1u << 20) + 24; ++n) if (n % nw == w) sizes.push_back(n);
+      ctx().count("threshold_window_lengths", (long long)sizes.size());
+   }
    for (int round = 0; round < 2; ++round)
       for (auto n : sizes) {
          // round 0: current pool nearly full -> the separate oversize path for n > 65536; round 1: as found
